@@ -48,19 +48,65 @@ func init() {
 	}
 }
 
-// headerIsActivityPubMediaType returns true if the header string contains one
-// of the accepted ActivityStreams media types.
+const (
+	// The ActivityStreams media type.
+	activityStreamsMediaType = "application/activity+json"
+	// The JSON-LD media type, which needs the ActivityStreams profile.
+	jsonLdMediaType = "application/ld+json"
+	// The profile parameter of the JSON-LD media type, and its value.
+	profileParameter       = "profile"
+	activityStreamsProfile = "https://www.w3.org/ns/activitystreams"
+)
+
+// headerIsActivityPubMediaType returns true if one of the media types listed
+// in the header is an accepted ActivityStreams media type: the ActivityStreams
+// type itself, or the JSON-LD type with the ActivityStreams profile.
 //
-// Note we don't try to build a comprehensive parser and instead accept a
-// tolerable amount of whitespace since the HTTP specification is ambiguous
-// about the format and significance of whitespace.
+// Note we don't try to build a comprehensive parser: the header is cut at
+// commas and semicolons outside of quoted strings, and whitespace around the
+// pieces is ignored since the HTTP specification is ambiguous about its
+// format and significance. The profile may be quoted or not.
 func headerIsActivityPubMediaType(header string) bool {
-	for _, mediaType := range activityStreamsMediaTypes {
-		if strings.Contains(header, mediaType) {
+	for _, elem := range splitOutsideQuotes(header, ',') {
+		parts := splitOutsideQuotes(elem, ';')
+		switch strings.TrimSpace(parts[0]) {
+		case activityStreamsMediaType:
 			return true
+		case jsonLdMediaType:
+			for _, param := range parts[1:] {
+				kv := strings.SplitN(param, "=", 2)
+				if len(kv) != 2 || strings.TrimSpace(kv[0]) != profileParameter {
+					continue
+				}
+				// A profile is a space separated list of IRIs.
+				for _, p := range strings.Fields(strings.Trim(strings.TrimSpace(kv[1]), "\"")) {
+					if p == activityStreamsProfile {
+						return true
+					}
+				}
+			}
 		}
 	}
 	return false
+}
+
+// splitOutsideQuotes cuts s at every sep that is not inside a quoted string.
+func splitOutsideQuotes(s string, sep byte) []string {
+	var out []string
+	quoted := false
+	start := 0
+	for i := 0; i < len(s); i++ {
+		switch {
+		case s[i] == '\\' && quoted:
+			i++
+		case s[i] == '"':
+			quoted = !quoted
+		case s[i] == sep && !quoted:
+			out = append(out, s[start:i])
+			start = i + 1
+		}
+	}
+	return append(out, s[start:])
 }
 
 const (
